@@ -43,12 +43,25 @@ package dependency
 //@   ensures [lookup] result1 == nil
 //@
 // Inputs. slices.BinarySearchFunc is higher-order: only the range of its result is assumed.
+// (the input list of a controller is sorted by namespace, type, ID, kind; binary search for a new input
+// therefore lands next to any stored input with the same namespace/type/ID: that is the second
+// assumption at the call. What is proved is that the scan around the index then rejects it.)
+//@ pred sameKeys(a controller.Input, b controller.Input) := a.Namespace == b.Namespace && a.Type == b.Type && a.ID.present == b.ID.present && a.ID.value == b.ID.value
+//@
 //@ func (*Database).AddControllerInput
 //@   props C17
 //@   requires [wired] db != nil
 //@   modifies dbWrites
 //@   at BinarySearchFunc #1
 //@     assume_result [binary-search] 0 <= result0 && result0 <= len(existingInputs)
+//@     assume_result [conflicting-keys-are-neighbours] forall k int {existingInputs[k]} :: 0 <= k && k < len(existingInputs) && sameKeys(existingInputs[k], dep) ==> result0 - 1 <= k && k <= result0 + 1
+//@   at Insert #1
+//@     assert [no-conflict-left] forall k int {existingInputs[k]} :: 0 <= k && k < len(existingInputs) ==> !sameKeys(existingInputs[k], dep)
+//@     assert [no-conflict-at-lock-time; using no-conflict-left] forall k int :: 0 <= k && k < len(existingInputs) ==> !sameKeys(acq(existingInputs[k]), dep)
+//@   loop #1
+//@     invariant [scanned-so-far] forall j int :: 0 <= j && j <= rangeindex ==> !(0 <= idx + j - 1 && idx + j - 1 < len(existingInputs) && sameKeys(existingInputs[idx + j - 1], dep))
+//@     invariant [state] db != nil && 0 <= idx && idx <= len(existingInputs)
+//@   ensures [conflicting-input-rejected; using no-conflict-at-lock-time] (exists k int :: 0 <= k && k < len(existingInputs) && sameKeys(acq(existingInputs[k]), dep)) ==> result != nil
 //@   ghost dbWrites = dbWrites + ite(result == nil, 1, 0)
 //@   ensures [counted] dbWrites == old(dbWrites) + ite(result == nil, 1, 0)
 //@   ensures [rejected-has-no-effect] result != nil ==> (forall c string :: (in(c, db.controllerInputs) <==> acq(in(c, db.controllerInputs))) &&
